@@ -50,6 +50,12 @@ func DateFromString(data string) (*Date, error) {
 	if len(parts) != 3 {
 		return nil, fmt.Errorf("Invalid date string: %s", data)
 	}
+	for _, part := range parts {
+		// digits only, Atoi would take a sign
+		if part == "" || strings.Trim(part, "0123456789") != "" {
+			return nil, fmt.Errorf("Invalid date string: %s", data)
+		}
+	}
 
 	year, err := strconv.Atoi(parts[0])
 	if err != nil {
@@ -63,6 +69,13 @@ func DateFromString(data string) (*Date, error) {
 
 	day, err := strconv.Atoi(parts[2])
 	if err != nil {
+		return nil, fmt.Errorf("Invalid date string: %s", data)
+	}
+
+	// the date must exist: time.Date normalises what does not (month 13,
+	// February 30) into another date
+	asTime := time.Date(year, time.Month(month), day, 0, 0, 0, 0, time.UTC)
+	if year > 9999 || asTime.Year() != year || int(asTime.Month()) != month || asTime.Day() != day {
 		return nil, fmt.Errorf("Invalid date string: %s", data)
 	}
 
